@@ -387,6 +387,10 @@ func genPanicSites(pkgs []*packages.Package) string {
 	}
 	var ents []ent
 	for _, p := range pkgs {
+		if p.Name == "basic" {
+			// the sample keyring is not a receive path: C15 quantifies over keyring behaviours instead
+			continue
+		}
 		for _, f := range p.Syntax {
 			if isTest(p.Fset, f) || !decodeFiles[baseName(p.Fset, f)] || strings.HasPrefix(baseName(p.Fset, f), "verif_") {
 				continue
